@@ -50,7 +50,7 @@ def project(case, outs):
         if r[0] == 8:
             last[(r[2], r[3])] = i
     keep = set(last.values())
-    others = [r for i, r in enumerate(outs) if r[0] in (2, 3, 4, 11, 13, 16) or (r[0] == 5 and r[4] == 1)]
+    others = [r for i, r in enumerate(S.with_unprotected_probes(outs)) if r[0] in (2, 3, 4, 11, 13, 16, 18, 19) or (r[0] == 5 and r[4] == 1)]
     probes = [r for i, r in enumerate(outs) if r[0] == 8 and i in keep]
     end = [r for r in outs if r[0] == 10]
     return others + probes + end
